@@ -12,6 +12,7 @@ def targets():
     from PEPit.function import Function
     from PEPit.wrapper import Wrapper
     from PEPit.wrappers.cvxpy_wrapper import CvxpyWrapper
+    from PEPit.wrappers.mosek_wrapper import MosekWrapper
     from PEPit.block_partition import BlockPartition
     from PEPit.tools import expressions_to_matrices as etm
     from PEPit.point import Point
@@ -28,9 +29,12 @@ def targets():
         "CvxpyWrapper.send_lmi_constraint_to_solver": CvxpyWrapper.send_lmi_constraint_to_solver,
         "CvxpyWrapper._recover_dual_values": CvxpyWrapper._recover_dual_values,
         "Wrapper.assign_dual_values": Wrapper.assign_dual_values,
+        "MosekWrapper.send_constraint_to_solver": MosekWrapper.send_constraint_to_solver,
+        "MosekWrapper.send_lmi_constraint_to_solver": MosekWrapper.send_lmi_constraint_to_solver,
         "BlockPartition.add_partition_constraints": BlockPartition.add_partition_constraints,
         "BlockPartition.get_block": BlockPartition.get_block,
         "expression_to_matrices": etm.expression_to_matrices,
+        "expression_to_sparse_matrices": etm.expression_to_sparse_matrices,
         "Point.__init__": Point.__init__,
         "Expression.__init__": Expression.__init__,
     }
